@@ -26,7 +26,8 @@ RULE = ("part A: class in {LRUCache, HybridCache, SimpleCache, DiskCache(+-LRU f
         "another PYTHONHASHSEED, keys incl. instances of a class defined in __main__, to_hashable forms and a raw frozenset. Part A also has policy-stress "
         "histories (8-16 put/get ops, durations 1-8, no clear), puts of values that cannot be pickled and of bytes values (some "
         "looking like pickles); a fifth of the cases translate the key alphabet into falsy keys (None, 0, '', ()) or pipefunc-shaped "
-        "tuple keys. part N (about 1 case in 1200): DiskCache file names of 100 000+ distinct keys must be pairwise distinct. distinct_nontrivial = distinct (configuration, history, RPC-order digest) in which an "
+        "tuple keys. part N (about 1 case in 1200): DiskCache file names of 100 000+ distinct keys must be pairwise distinct. part L (about 1 case in "
+        "500): LRU/Hybrid caches of capacity 128-200 filled beyond the bound entry by entry, the model checked after every put. distinct_nontrivial = distinct (configuration, history, RPC-order digest) in which an "
         "eviction happened (A) or two clients' operations overlapped (B)")
 COMPONENTS = {
     "real": ["pipefunc.cache LRUCache/HybridCache/SimpleCache/DiskCache", "cloudpickle/pickle", "tmpfs directory of a DiskCache"],
